@@ -81,7 +81,8 @@ def c_min(a, b):
 
 
 def c_arctan2(a, b):
-    return np.arctan(a / b)  # differs from arctan2 by a constant: same derivative
+    # arctan(a/b) plus the branch constant of arctan2 (piecewise constant, so the complex step sees the same derivative)
+    return np.arctan(a / b) + np.where(np.real(b) < 0, np.where(np.real(a) >= 0, np.pi, -np.pi), 0.0)
 
 
 def c_logaddexp(a, b):
